@@ -1,6 +1,7 @@
 package c16
 
 import (
+	"math"
 	"time"
 	"fmt"
 	"testing"
@@ -100,7 +101,7 @@ func TestScratchGen(t *testing.T) {
 }
 
 func TestScratchTime(t *testing.T) {
-	for _, cls := range []int{8} {
+	for _, cls := range []int{8, 9} {
 		var tot, max time.Duration
 		for i := 0; i < 16; i++ {
 			idx := cls + 10*i
@@ -146,7 +147,7 @@ func TestScratchKinds(t *testing.T) {
 		do("richer", func() val { return genFromRicher(r) })
 		do("wkt", func() val { return genSchemaOfType(r, schemaWKTs[r.Intn(len(schemaWKTs))], 3) })
 		do("desc", func() val { return genSchemaOfType(r, schemaDescTypes[r.Intn(len(schemaDescTypes))], 3) })
-		do("real", func() val { return genRealDescriptor(r) })
+		do("real", func() val { return genRealDescriptor(r, false) })
 		do("str", func() val { return schemaStrVal(r, genStr(r)) })
 		do("sized", func() val { return schemaSized(r, 4000) })
 		if i%10 == 0 { do("large", func() val { return genLargeSchemaVal(r) }) }
@@ -154,4 +155,18 @@ func TestScratchKinds(t *testing.T) {
 	for k, a := range m {
 		fmt.Printf("%-8s n=%d gen=%v/val rt=%v/val bytes=%d\n", k, a.n, a.gen/time.Duration(a.n), a.rt/time.Duration(a.n), a.bytes/a.n)
 	}
+}
+
+func TestScratchLossy(t *testing.T) {
+	v := wrapperspb.Double(math.Copysign(0, -1))
+	v.ProtoReflect().SetUnknown([]byte{0xc0, 0x3e, 0x07})
+	m := cqrs.ProtobufMarshaler{}
+	msg, _ := m.Marshal(v)
+	fmt.Printf("payload %x\n", msg.Payload)
+	got := &wrapperspb.DoubleValue{}
+	proto.Unmarshal(msg.Payload, got)
+	c := proto.Clone(v)
+	c.ProtoReflect().SetUnknown(nil)
+	fmt.Println("clone diff:", protoDiff(c, got))
+	fmt.Printf("det clone %x det got %x\n", detBytes(c), detBytes(got))
 }
